@@ -16,6 +16,8 @@ package reactorsim
 
 import (
 	"bytes"
+	"encoding/json"
+	"flag"
 	"fmt"
 	"io"
 	"net"
@@ -476,6 +478,9 @@ type sim struct {
 	dead     bool // a known finding ended the useful part of the run
 	switched bool // fast sync handed over to consensus
 	quar     int
+
+	trace     []simcore.Op
+	tracePath string
 
 	// generator memo (Next only): the last "own" part set validator 2 proposed
 	ownSeedMemo int
@@ -1134,6 +1139,31 @@ func census() (map[string]int, map[string]string) {
 	return out, sample
 }
 
+// ---------------------------------------------------------------- crash trace
+
+// noteTrace keeps the trace of the current run on disk (replay-file format): if a goroutine of
+// the node panics the worker process dies, and this file is what is left to replay.
+func (s *sim) noteTrace(op simcore.Op) {
+	if f := flag.Lookup("sim.replay"); f != nil && f.Value.String() != "" {
+		return
+	}
+	if s.tracePath == "" {
+		dir := "/dev/shm"
+		if f := flag.Lookup("sim.replaydir"); f != nil && f.Value.String() != "" {
+			dir = f.Value.String()
+		}
+		os.MkdirAll(dir, 0o755)
+		s.tracePath = filepath.Join(dir, fmt.Sprintf("CRASHED-reactorsim-%d.json", s.env.Seed))
+	}
+	s.trace = append(s.trace, op)
+	rf := simcore.ReplayFile{Harness: "reactorsim", Property: "C17", Tier: s.env.Tier, BatchSeed: s.env.BatchSeed, RunIndex: s.env.RunIndex,
+		Seed: fmt.Sprint(s.env.Seed), Cfg: s.cfg, Ops: s.trace, OrigOps: len(s.trace),
+		Notes: []string{"trace of a run whose worker process died (a goroutine of the node panicked or the run hung): the last op is the one being applied"}}
+	if b, err := json.Marshal(rf); err == nil {
+		os.WriteFile(s.tracePath, b, 0o644)
+	}
+}
+
 // ---------------------------------------------------------------- node state helpers
 
 func (s *sim) consensusRunning() bool { return s.conS.IsRunning() }
@@ -1265,6 +1295,7 @@ func (s *sim) Apply(op simcore.Op) (ok bool) {
 	if s.closed || s.dead {
 		return false
 	}
+	s.noteTrace(op)
 	defer func() {
 		if r := recover(); r != nil {
 			if _, is := r.(simStop); is {
@@ -1437,6 +1468,9 @@ func (s *sim) Close() {
 	}
 	s.closed = true
 	s.teardown()
+	if s.tracePath != "" {
+		os.Remove(s.tracePath)
+	}
 }
 
 // teardown stops everything the run created.
